@@ -337,10 +337,10 @@ Proof.
   destruct (finish_shape s' o md pad R E) as (fp & kids & off & mp & psz & Sf & Sm & Sl & S1 & S2 & S3).
   pose proof (fold_ftyp cfg inp bs st0 s' Ef) as Ff. cbn [st0 st_ftyp] in Ff. rewrite Sf in Ff.
   pose proof (fold_moov cfg inp bs st0 s' Ef) as Fm. rewrite Sm in Fm.
-  destruct (the_ftyp bs) as [f|]; [|discriminate]. injection Ff as ->.
-  destruct (last_moov bs) as [m|]; [|cbn in Fm; discriminate].
+  destruct (the_ftyp bs) as [f|] eqn:Etf; [|discriminate]. injection Ff as ->.
+  destruct (last_moov bs) as [m|] eqn:Elm; [|cbn in Fm; discriminate].
   destruct Fm as (kids0 & Hk & Em). injection Em as <- _.
   exists bs, f, m, mp, psz.
-  split; [reflexivity|]. split; [reflexivity|]. split; [reflexivity|]. split; [exact S1|].
+  split; [reflexivity|]. split; [exact Etf|]. split; [exact Elm|]. split; [exact S1|].
   split; [rewrite Sl, (moov_check_put _ _ Hk); reflexivity|]. split; [exact S2 | exact S3].
 Qed.
